@@ -2,7 +2,7 @@
    This file holds ONLY the property theorems (each closed by `exact <lemma>`) and their Print Assumptions.
    entry_points / writable_globals are REGENERATED from /repo's working tree on every run (coq/gen/LockSkeleton.v from the
    clang AST of jitallocator.cpp + jitruntime.cpp, coq/gen/WritableGlobals.v from the static build). *)
-From Coq Require Import String List Bool ZArith.
+From Coq Require Import String List Bool ZArith Permutation.
 From Verif Require Import Jit.JitModel Jit.JitBits Jit.JitBlockProofs Jit.JitProofs Jit.JitWitness Conc.JitConcProofs Conc.RefineProofs.
 From Verif Require Import Conc.LockModel Conc.LockProofs Conc.ConcModel Conc.ConcProofs Conc.ProgramProofs Conc.FreshProofs.
 From Verif Require Import Conc.StaticsModel Conc.StaticsProofs.
@@ -256,3 +256,46 @@ Theorem C11_statics_warm_after_first_call : forall name s g nz t1 fl1 nz1 nz1' t
   ~ In (VZero g) t2 /\ forall n, guard_of n = Some g -> ~ In (VWr n) t2.
 Proof. exact (fun name s g nz t1 fl1 nz1 nz1' t2 fl nz2 => warm_after_first_call static_entry_points name s g nz t1 fl1 nz1 nz1' t2 fl nz2 statics_ok). Qed.
 Print Assumptions C11_statics_warm_after_first_call.
+
+(* ---- round 5 *)
+(* frame of the value-aware runs: a call leaves every flag it has no store for exactly as it was - in particular no call ever
+   clears a guard flag, so "warm" can never become "cold" again *)
+Theorem C11_statics_flags_frame : forall nz s t fl nz', vrun nz s t fl nz' -> forall x, ~ In x (sets_of s) -> nz' x = nz x.
+Proof. exact vrun_frame. Qed.
+Print Assumptions C11_statics_flags_frame.
+
+(* non-vacuity of C11_statics_warm_after_first_call: a cold call that writes the cache, then a warm call that does not *)
+Theorem C11_statics_warm_satisfiable :
+  vcheck_program [("f"%string, info_like)] = [] /\ always_sets "VirtMem::info::vm_info_initialized"%string info_like = true /\
+  exists t1 nz1 t2 nz2,
+    vrun (fun _ => false) info_like t1 false nz1 /\ In (VWr "VirtMem::info::vm_info"%string) t1 /\
+    vrun nz1 info_like t2 false nz2 /\ ~ In (VWr "VirtMem::info::vm_info"%string) t2.
+Proof. exact warm_after_first_call_sat. Qed.
+Print Assumptions C11_statics_warm_satisfiable.
+
+(* the ownership hypothesis conc_ok of C11_concurrent_refines_c09 is decided by an executable check ... *)
+Theorem C11_ownership_discipline_decided : forall c ops st own, conc_okb c st own ops = true -> conc_ok c st own ops.
+Proof. exact conc_okb_sound. Qed.
+Print Assumptions C11_ownership_discipline_decided.
+
+(* ... and is non-vacuous: two threads interleaving alloc / shrink / query / release of their own spans *)
+Theorem C11_disciplined_history_example :
+  conc_ok cfg_f (init_state cfg_f) []
+    [(0%nat, OAlloc 100%Z); (1%nat, OAlloc 5000%Z); (0%nat, OShrink 0%Z 64%Z 64%Z); (1%nat, OQuery 0%Z 64%Z); (1%nat, ORelease 0%Z 192%Z); (0%nat, ORelease 0%Z 64%Z)].
+Proof. exact conc_ok_example. Qed.
+Print Assumptions C11_disciplined_history_example.
+
+(* NO DEADLOCK ON THE ALLOCATOR LOCK (with C11_holder_never_blocks): whenever a thread of the program holds the lock, its
+   remaining events contain the release, with no acquire (and no other release) before it - the holder only has to keep running *)
+Theorem C11_holder_releases : forall t done rest,
+  thread_trace entry_points t -> t = done ++ rest ->
+  wl (prot_of (written entry_points)) false done = Some true ->
+  exists r1 r2, rest = r1 ++ ERel :: r2 /\ ~ In EAcq r1 /\ ~ In ERel r1.
+Proof. exact (fun t done rest => thread_holder_releases entry_points t done rest skeleton_ok). Qed.
+Print Assumptions C11_holder_releases.
+
+(* the serialisation of C11_linearizable only reorders the execution: it has exactly the same events (nothing dropped, nothing
+   invented), for every trace whatsoever *)
+Theorem C11_serialisation_is_permutation : forall tr, Permutation tr (ser tr).
+Proof. exact ser_permutation. Qed.
+Print Assumptions C11_serialisation_is_permutation.
